@@ -141,6 +141,8 @@ def run(ctx):
         _model(ctx, py, wa)
     _forms(ctx, py)
     _propagate(ctx, py)
+    from props import helpers
+    helpers.util_products(ctx, py, "C04")
 
 
 _REAL_CONSTS = {}
